@@ -14,7 +14,7 @@ type req struct {
 }
 
 func newReq(cmd string) *req { r := &req{}; r.sb.WriteString(cmd); return r }
-func (r *req) i(v int) *req   { r.sb.WriteByte(' '); r.sb.WriteString(strconv.Itoa(v)); return r }
+func (r *req) i(v int) *req  { r.sb.WriteByte(' '); r.sb.WriteString(strconv.Itoa(v)); return r }
 func (r *req) b(v bool) *req {
 	if v {
 		return r.i(1)
@@ -59,6 +59,7 @@ func (r *resp) ints() []int {
 	}
 	return out
 }
+
 // intsK reads a list of n records of k integers each, flattened.
 func (r *resp) intsK(k int) []int {
 	n := r.int()
